@@ -873,3 +873,43 @@ func c09CmpBarrier(name string, holds bool, atoms ...c09Cmp) Barrier {
 		return true, 1
 	}}
 }
+
+// c09StagingFn: the function with which AutoTA stages revocation verdicts,
+// identified by structure — the function of AutoTA's package that AutoTA (or
+// one of its closures) calls directly and whose body calls
+// revocationIsSelfSignedWithWork.  Exactly one such callee is expected.
+func c09StagingFn(c *Ctx, rule string, autoTA *ssa.Function, selfSigned *types.Func) (*ssa.Function, *types.Func) {
+	if autoTA == nil || selfSigned == nil {
+		return nil, nil
+	}
+	var found []*ssa.Function
+	seen := map[*ssa.Function]bool{}
+	for _, g := range WithAnons(autoTA) {
+		for _, b := range g.Blocks {
+			for _, in := range b.Instrs {
+				cc := callCommon(in)
+				if cc == nil {
+					continue
+				}
+				f := cc.StaticCallee()
+				if f == nil || seen[f] || f.Pkg == nil || f.Pkg != autoTA.Pkg || TopLevel(f) == autoTA {
+					continue
+				}
+				seen[f] = true
+				if len(instrsWhere(f, isPlainCallTo(selfSigned))) > 0 {
+					found = append(found, f)
+				}
+			}
+		}
+	}
+	if len(found) != 1 {
+		c.unresolved(rule, fnKey(autoTA)+"|staging function", fmt.Sprintf("expected exactly one callee of AutoTA that calls revocationIsSelfSignedWithWork, found %d", len(found)))
+		return nil, nil
+	}
+	fo := funcObjOf(found[0])
+	if fo == nil {
+		c.unresolved(rule, fnKey(found[0])+"|staging function", "no function object")
+		return nil, nil
+	}
+	return found[0], fo
+}
